@@ -82,6 +82,8 @@ fn item_of(case: &str, mode: &str, v: Vis, item_vis: &str) -> (String, &'static 
         "mod" | "mod_path" => (format!("#[{mac}({vs}TheTrait{extra})]\n{item_vis}mod m {{ pub fn f(_deps: &impl Sized) {{}} }}"), "TheTrait"),
         // the delegation-target trait takes the visibility of the original trait, whatever is written before its name
         "trait_static" => (format!("#[{mac}({item_vis}TrImpl, delegate_by = DelegateTr{extra})]\n{vs}trait Tr {{ fn m(&self); }}"), "TrImpl"),
+        // ... and so does the selector trait that is generated with it
+        "trait_selector" => (format!("#[{mac}({item_vis}TrImpl, delegate_by = DelegateTr{extra})]\n{vs}trait Tr {{ fn m(&self); }}"), "DelegateTr"),
         _ => (format!("#[{mac}({item_vis}TrImpl, delegate_by = ref{extra})]\n{vs}trait Tr {{ fn m(&self); }}"), "TrImpl"),
     };
     (item, name)
@@ -151,7 +153,7 @@ fn all_probes() -> Vec<(String, String, Vis, String, String)> {
             }
         }
     }
-    for mode in ["trait_static", "trait_ref"] {
+    for mode in ["trait_static", "trait_ref", "trait_selector"] {
         for v in [Vis::Private, Vis::Pub, Vis::PubCrate, Vis::PubSuper, Vis::PubInA, Vis::PubSelf, Vis::PubInSelf] {
             // `item_vis` here is the visibility keyword written before the delegation-target trait's name
             for iv in ["", "pub ", "pub(crate) "] {
